@@ -93,6 +93,22 @@ def run():
         nid += 1
         rows.append({"ev": "diff", "id": nid, "texts": texts, "v2": bool(i % 2), "order": ["plain", "reverse", "shuffle"][i % 3], "serial": SERIAL,
                      "detail": True, "tag": "chain"})
+    # deletion-only / deletions-first diffs whose lines expand to several records: the same key turns up in
+    # non-adjacent deletions (two NS lines of one zone: NS under the zone key + A under each server's key)
+    for i in range(12 if thorough else 4):
+        zone = "ns%d.test" % i
+        base = [".%s,10.%d.0.1,a,300" % (zone, i)] + ["&%s,10.%d.0.%d,%s,300" % (zone, i, k + 2, chr(98 + k)) for k in range(4)] \
+               + ["@%s,10.%d.1.%d,m%d,%d,300" % (zone, i, k + 1, k, 10 * k) for k in range(3)] + ["=h%d.%s,10.%d.2.%d,60" % (k, zone, i, k + 1) for k in range(3)] \
+               + ["+w.%s,10.%d.3.%d,60" % (zone, i, k + 1) for k in range(4)]
+        v1 = list(base)
+        rng.shuffle(v1)
+        keep = [l for l in base if not (l.startswith("&") and rng.random() < 0.6) and not (l.startswith("@") and rng.random() < 0.5) and not (l.startswith("+w") and rng.random() < 0.5)]
+        v2 = keep
+        v3 = keep + ["&%s,10.%d.0.9,z,300" % (zone, i), "+w.%s,10.%d.3.9,60" % (zone, i)]
+        v4 = [l.replace(",300", ",301") if l.startswith("&") else l for l in v3]           # changed records: -old / +new under one key
+        nid += 1
+        rows.append({"ev": "diff", "id": nid, "texts": ["\n".join(v) + "\n" for v in (v1, v2, v3, v4)], "v2": bool(i % 2), "order": ["plain", "reverse", "shuffle"][i % 3],
+                     "serial": SERIAL, "detail": True, "tag": "ns-removal"})
     # diffs that must be refused
     base = render(semgen.gen_world(rng, nrec=15).lines, rng)
     first = next(l for l in base.split("\n") if l.startswith("+"))
